@@ -72,7 +72,8 @@ def oracle_step(bf: str, af: str, cmd: T.Dict[str, T.Any], status: str, meta: T.
     viol: T.List[T.Tuple[str, str]] = []
     tags: T.List[str] = []
     pairs: T.List[T.Dict[str, T.Any]] = []
-    res = {'viol': viol, 'tags': tags, 'pairs': pairs, 'expected_files': None, 'target': None, 'what': None}
+    res = {'viol': viol, 'tags': tags, 'pairs': pairs, 'expected_files': None, 'target': None, 'what': None,
+           'listops': [], 'lists_after': {}}
     typ = cmd.get('type')
     op = cmd.get('operation')
     kind = f'{typ}:{op}'
@@ -229,7 +230,18 @@ def oracle_step(bf: str, af: str, cmd: T.Dict[str, T.Any], status: str, meta: T.
                         expect[k] = ('skip', None)      # "too complex to modify"
                     else:
                         vals = [el(x) for x in (v if isinstance(v, list) else [v])]
-                        expect[k] = ('list', b + vals if op == 'add' else [x for x in b if x not in vals])
+                        if op == 'add':
+                            want = b + vals                               # appended, nothing else changes
+                        elif op == 'remove':
+                            want = [x for x in b if x not in vals]        # exactly equal elements go
+                        else:                                             # remove_regex: matched FROM THE START
+                            if cls == 'MTypeIDList':
+                                want = list(b)                            # (ids are never matched by a regex)
+                            else:
+                                want = [x for x in b if not any(re.match(rx, x) for rx in vals)]
+                        expect[k] = ('list', want)
+                        if cls == 'MTypeStrList' and op in ('add', 'remove'):
+                            res['listops'].append(('addv' if op == 'add' else 'rmeq', vals, b, k))
 
             def vc4(ast_: T.List[T.Any], fn=fn, expect=expect) -> T.Optional[str]:
                 if fn == 'project':
@@ -249,6 +261,8 @@ def oracle_step(bf: str, af: str, cmd: T.Dict[str, T.Any], status: str, meta: T.
                         if got != want:
                             return f'keyword {k} is {got!r}, requested {want!r}'
                     else:
+                        res['lists_after'][k] = _norm_list(got)
+                        tags.append('list-edit:' + op)
                         if _norm_list(got) != want:
                             return f'keyword {k} is {got!r}, requested list {want!r}'
                 return None
@@ -263,6 +277,8 @@ def oracle_step(bf: str, af: str, cmd: T.Dict[str, T.Any], status: str, meta: T.
             keys = {'default_options'}
             b = _norm_list(R.lit(R.kwarg(loc[1], 'default_options')))
             opts = cmd['options']
+            if isinstance(b, list) and all(isinstance(x, str) for x in b):
+                res['listops'].append(('dodel', sorted(opts), b, 'default_options'))
 
             def vc5(ast_: T.List[T.Any], b=b, opts=opts) -> T.Optional[str]:
                 la = R.find_func(ast_, 'project')
@@ -274,14 +290,24 @@ def oracle_step(bf: str, af: str, cmd: T.Dict[str, T.Any], status: str, meta: T.
                 got = _norm_list(R.lit(R.kwarg(la[1], 'default_options')))
                 if isinstance(got, tuple) or any(not isinstance(x, str) for x in got):
                     return f'default_options is {got!r}'
-                keep = [x for x in b if not any(re.match(f'{k}=.*', x) for k in opts)]
+                # set = replace the entries with exactly that key (append), delete = remove exactly that key;
+                # an entry belongs to key k when its text before the first `=` IS k
+                def key_of(x: str) -> T.Optional[str]:
+                    return x.split('=', 1)[0] if '=' in x else None
+                keep = [x for x in b if key_of(x) not in opts]
+                res['lists_after']['default_options'] = got
+                tags.append('list-edit:default_options-' + op)
+                if len(keep) != len(b):
+                    tags.append('list-edit:default_options-removed-entry')
+                if any(k in x and key_of(x) != k for x in b for k in opts):
+                    tags.append('list-edit:near-collision-present')
                 if got[:len(keep)] != keep:
-                    return f'default_options {got!r} does not keep {keep!r}'
+                    return f'default_options {got!r} does not keep exactly {keep!r} (before {b!r}, keys {sorted(opts)!r})'
                 rest = got[len(keep):]
                 if op == 'delete':
                     return None if not rest else f'default_options has extra entries {rest!r}'
                 want = sorted(opts)
-                if [x.split('=', 1)[0] for x in rest] != want:
+                if [key_of(x) for x in rest] != want:
                     return f'default_options tail {rest!r}, requested keys {want!r}'
                 for x in rest:
                     k, v = x.split('=', 1)
@@ -487,6 +513,17 @@ def _collect(out: T.Dict[str, T.Any], step: T.Dict[str, T.Any], case: T.Dict[str
     out['tags'] += step['tags']
     if af != bf:
         out['tags'].append('file-changed')
+    if not step['viol']:
+        for cmdname, vals, before, key in step['listops']:
+            after = step['lists_after'].get(key)
+            if after is None or any(not isinstance(x, str) or x == '' for x in list(vals) + list(before) + list(after)):
+                continue
+            if cmdname == 'dodel':
+                # the model gives the kept part; `set` appends len(keys) entries behind it
+                exp = after if cmd.get('operation') == 'delete' else after[:max(0, len(after) - len(vals))]
+            else:
+                exp = after
+            out['lean'].append(('listop', f'{cmdname} {enc_list(vals)}|{enc_list(before)}', enc_list(exp), _case_of(case, ci)))
     for p in step['pairs']:
         line = 'same ' + '|'.join([enc_list(p['uni']), enc_list(p['cf']), enc_list(p['keys']), p['before'], p['after']])
         out['lean'].append(('same', line, '1' if p['py'] else '0', _case_of(case, ci)))
@@ -772,7 +809,7 @@ def _absorb(ctx: Ctx, cases: T.List[T.Dict[str, T.Any]], results: T.List[T.Dict[
             ctx.tag('lean:' + kind)
             if a.strip() != expected.strip():
                 d = {'kind': 'lean-' + kind, 'model': a[:300], 'impl': expected[:300]}
-                if kind == 'same':
+                if kind in ('same', 'listop'):
                     d['case'] = c
                 else:
                     d['before'] = c['before'][:600]
@@ -815,7 +852,7 @@ def search(ctx: Ctx, disagreements: T.List[dict]) -> None:
     epool = ['e%d.txt' % i for i in range(4)]
     for d in disagreements[:20]:
         src = d.get('input') if d.get('kind') in ('print', 'newdata') else None
-        if d.get('kind') == 'lean-same':
+        if d.get('kind') in ('lean-same', 'lean-listop'):
             cases.append(_inflate(d['case']))
         if not src or not isinstance(src, str) or ';' in src[:3]:
             continue
